@@ -57,13 +57,13 @@ open(os.path.join(V, 'seeded', 'INDEX.md'), 'w').write(
     + tab + "\n\nDropped candidates (not kept because a verification step failed): " + (json.dumps(dropped) if dropped else "none") + "\n")
 R7 = (" Round 7 (`Cxx_r7mK`, 'well-meant additions': a fast path for the common case, a value cached at construction or in a module-level "
       "dictionary, defensive input normalisation, a fallback that takes a legal falsy value for 'absent', support for a new input kind whose "
-      "dispatch also captures an existing one): at first 25 of 60 were not reported by the check of their own property, 18 of them by no check. "
-      "They led to the frozen loss object, the 'field replaced after construction' relation, the obligations listed at the end of section 3 "
-      "(a map declaring nothing evaluated first, a second loader, coinciding names, extra top-level entries, stepped slices, space dimension 1 and 3 "
-      "for separable networks, a start of one point, a viscosity along x) and to integer indexing of single-row axes. Not decided: a per-component "
-      "weight mistaken for per-point weights when the batch size equals the number of components (row axes have no particular size), a fast path of "
-      "the space-time product for a batch of one row (the generators' structured row axes have no single-row twin), a single-row fast path that "
-      "needs a vector-valued batched parameter, and two dtype changes (section 6).")
+      "dispatch also captures an existing one): this round adds code, and much of what it adds branches in Python on values that the obligations "
+      "keep symbolic or calls functions without a model. At first about a third of the 60 were reported as violations. The round led to the frozen "
+      "loss object, the 'field replaced after construction' relation, the obligations listed at the end of section 3 (a map declaring nothing "
+      "evaluated first, a second loader, coinciding names, extra top-level entries, stepped slices, space dimension 1 and 3 for separable networks, "
+      "a start of one point, a viscosity along x, concrete zero weights and bounds, an untracked second parameter), integer indexing of single-row "
+      "axes and the models `clip`, `nan_to_num`, `jax.tree.all`, `vars`. Now 41 of the 60 are reported, 14 make a check leave its vocabulary "
+      "(exit 2: it names the construct it cannot decide) and 5 are silent (section 6).")
 p = os.path.join(V, 'DESIGN.md'); s = open(p).read()
 i = s.index("## 8. Seeded changes and which checks catch them"); j = s.index("## 9. Departures")
 s = s[:i] + "## 8. Seeded changes and which checks catch them\n\n" + \
